@@ -439,7 +439,7 @@ def gen_cases(ctx):
                             if idgen not in ('sequential', 'randint12') and vi > 1:
                                 continue
                             yield dict(part='single', pair=pair, idgen=idgen, strict=strict, method=method, shape=shape, vi=vi)
-    L = ctx.pick(3, 4)
+    L = ctx.pick(4, 4)
     behs = ['echo', 'ferr', 'boom'] if ctx.quick else ['echo', 'terr', 'ferr', 'uerr', 'boom']
     for n in range(1, L + 1):
         for kinds in itertools.product((True, False), repeat=n):
@@ -477,7 +477,7 @@ def run(ctx):
                 'batch[...], send(BatchRequest)); random.randint / random.choice are environment choice points (all answers for '
                 'ranges <= 4, so id collisions are enumerated), uuid4 and wide ranges are scripted. state = one (configuration, '
                 'call) point with all its notations and id choices; non-trivial = an outcome was compared with the direct call'
-                % ctx.pick(3, 4))
+                % ctx.pick(4, 4))
     ctx.assumptions += ['the registered python functions themselves are the oracle (called directly, result JSON-normalised)',
                         'when several batch elements fail, which error batch.call raises is free']
     ctx.run_cases('C07', lambda: gen_cases(ctx), run_case, recheck_every=499)
